@@ -12,8 +12,9 @@ import Gonuts.Spec.MintKeys
 
   The left conjuncts pin the Go text; the right conjuncts are the matching facts about the specification
   (by `rfl`/`decide`), so that both sides of the correspondence are visible in one statement.
-  `hdkeychain.HardenedKeyStart` is a constant of the btcutil dependency (2^31), outside /repo; that it
-  equals `Bip32.hardenedStart` is checked by the differential stream `deriv`, not here.
+  `hdkeychain.HardenedKeyStart` is a constant of the btcutil dependency, outside /repo; the extractor reads it
+  from the version go.mod pins, in the module cache (`hardenedKeyStart` below), and the stream `deriv` checks the
+  behaviour.
 -/
 namespace Gonuts.Tie
 open Gonuts.Spec
@@ -95,6 +96,9 @@ theorem mintKeysFacts :
       (∀ M ks j, MintKeys.keyAt M ks j =
         (Bip32.ckdPriv M ks (Bip32.hardenedStart + j)).map (fun c => ⟨2 ^ j, c.key, M c.key Secp256k1.G⟩))) :=
   ⟨⟨rfl, fun _ => rfl⟩, ⟨rfl, rfl, rfl⟩, ⟨rfl, rfl, rfl, rfl, fun _ _ _ => rfl⟩⟩
+
+/-- `hdkeychain.HardenedKeyStart` of the pinned btcutil is BIP32's `2^31`. -/
+theorem hardenedKeyStart : Gen.spec_hardenedKeyStart = Bip32.hardenedStart ∧ Bip32.hardenedStart = 2 ^ 31 := by decide
 
 /-- `wallet.DeriveP2PK`: m/129372'/0'/1'/0. -/
 theorem p2pkFacts :
